@@ -72,9 +72,12 @@ type perioRec struct {
 	cur     *perioEvent
 }
 
+// a notification is kept as it was handed over and decoded only when the observation is taken - the way the PFCP
+// server consumes it (NotifySessReport just queues the value; the loop reads it later): reports must stay what they
+// were after the periodic server has gone on to the next session
 type perioNotif struct {
 	seid uint64
-	reps []interface{}
+	sr   report.SessReport
 }
 
 func (r *perioRec) query(m map[uint64][]uint32) (map[uint64][]report.USAReport, error) {
@@ -115,15 +118,19 @@ func (r *perioRec) query(m map[uint64][]uint32) (map[uint64][]report.USAReport, 
 func (r *perioRec) NotifySessReport(sr report.SessReport) {
 	r.mu.Lock()
 	defer r.mu.Unlock()
-	n := perioNotif{seid: sr.SEID, reps: []interface{}{}}
+	r.notifs = append(r.notifs, perioNotif{seid: sr.SEID, sr: sr})
+}
+
+func perioReps(sr report.SessReport) []interface{} {
+	reps := []interface{}{}
 	for _, rp := range sr.Reports {
 		if u, ok := rp.(report.USAReport); ok {
-			n.reps = append(n.reps, []uint32{u.URRID, u.USARTrigger.Flags, u.URSEQN})
+			reps = append(reps, []uint32{u.URRID, u.USARTrigger.Flags, u.URSEQN})
 		} else {
-			n.reps = append(n.reps, fmt.Sprintf("not-a-usage-report:%T", rp))
+			reps = append(reps, fmt.Sprintf("not-a-usage-report:%T", rp))
 		}
 	}
-	r.notifs = append(r.notifs, n)
+	return reps
 }
 
 func (r *perioRec) PopBufPkt(uint64, uint16) ([]byte, bool) { return nil, false }
@@ -139,7 +146,7 @@ func (r *perioRec) take() ([][]interface{}, []interface{}) {
 	sort.SliceStable(ns, func(i, j int) bool { return ns[i].seid < ns[j].seid })
 	n := []interface{}{}
 	for _, x := range ns {
-		n = append(n, []interface{}{x.seid, x.reps})
+		n = append(n, []interface{}{x.seid, perioReps(x.sr)})
 	}
 	r.queries, r.notifs = nil, nil
 	return q, n
